@@ -33,7 +33,9 @@ AllLeaves == { Lit("0", IntV(0)), Lit("1", IntV(1)), Lit("2", IntV(2)), Lit("3",
                \* the other spellings Python (and data/grammar.lark) has for an integer: digit separators, upper-case prefix
                Lit("1_0", IntV(10)), Lit("0X10", IntV(16)), Lit("0x_1f", IntV(31)),
                Lit("0.5", FltV(1, 2)), Lit("1.5", FltV(3, 2)), Lit("2.0", FltV(2, 1)),
-               Lit("'a'", StrV("a")), Lit("\"b\"", StrV("b")), Lit("'12'", StrN("12", NumR(12))) }
+               Lit("'a'", StrV("a")), Lit("\"b\"", StrV("b")), Lit("'12'", StrN("12", NumR(12))),
+               \* strings whose content begins or ends with a quote character of the other kind
+               Lit("\"'\"", StrV("'")), Lit("\"x'\"", StrV("x'")), Lit("'\"q\"'", StrV("\"q\"")) }
 SmallLeaves == { Lit("2", IntV(2)), Lit("7", IntV(7)), Lit("0x10", IntV(16)), Lit("1.5", FltV(3, 2)), Lit("'a'", StrV("a")) }
 
 MidLeaves == SmallLeaves \cup { Lit("0", IntV(0)), Lit("0.5", FltV(1, 2)), Lit("'12'", StrN("12", NumR(12))) }
